@@ -51,6 +51,12 @@ TREES = {
                   "img.png": b"\x89PNG", "img.png.license": "SPDX-FileCopyrightText: Art\nSPDX-License-Identifier: CC-BY-4.0\n",
                   "sub dir/with space.py": H, "LICENSES/MIT.txt": "m", "LICENSES/0BSD.txt": "b", "LICENSES/LicenseRef-x.txt": "x"},
     },
+    "git-submodule-and-ignored": {
+        "git": True,
+        "files": {".gitmodules": '[submodule "vendor/lib"]\n\tpath = vendor/lib\n\turl = https://example.invalid/lib.git\n',
+                  ".gitignore": "build/\n*.tmp\n", "vendor/lib/x.c": "int x;\n", "vendor/lib/deep/y.c": "int y;\n", "vendor/own.c": "/* SPDX-FileCopyrightText: V\n * SPDX-License-Identifier: MIT\n */\n",
+                  "build/out.o": "obj", "src/a.py": H, "src/b.tmp": "scratch", "LICENSES/MIT.txt": "m"},
+    },
     "many-files": {
         "git": False,
         "files": dict([("REUSE.toml", 'version = 1\n[[annotations]]\npath = "d*/**"\nSPDX-FileCopyrightText = "Bulk"\nSPDX-License-Identifier = "MIT"\n'),
